@@ -10,6 +10,8 @@ pub enum Front {
     /// raw::Builder via hook H1 with the given cache geometry; insert (maps) / add (sets)
     RawGeom(usize, usize),
     RawMemoryInsert,
+    /// raw::Builder fed through BOTH entry points: add(k) for entries whose value is 0, insert(k, v) for the others
+    RawMixed,
     RawAdd,
     RawNewVec,
     RawExtendIter,
@@ -27,8 +29,9 @@ pub enum Front {
     SetFromIter,
 }
 
-pub const MAP_FRONTS: [Front; 10] = [
+pub const MAP_FRONTS: [Front; 11] = [
     Front::RawShortSink,
+    Front::RawMixed,
     Front::RawMemoryInsert,
     Front::RawNewVec,
     Front::RawExtendIter,
@@ -120,6 +123,17 @@ pub fn build(front: Front, kv: &Kv) -> Result<Vec<u8>, String> {
             let mut b = Builder::memory();
             for (k, v) in kv {
                 e(b.insert(k, *v))?;
+            }
+            e(b.into_inner())
+        }
+        Front::RawMixed => {
+            let mut b = Builder::memory();
+            for (k, v) in kv {
+                if *v == 0 {
+                    e(b.add(k))?;
+                } else {
+                    e(b.insert(k, *v))?;
+                }
             }
             e(b.into_inner())
         }
